@@ -15,6 +15,11 @@ ORDER = (("<", operator.lt), ("<=", operator.le), (">", operator.gt), (">=", ope
 ADDSUB = (("+", operator.add), ("-", operator.sub))
 
 
+#: (legacy spelling, the table unit it stands for)
+LEGACY_FOREIGN = [("1000ft3", "Mcf"), ("1000m3", "Mm3"), ("M(ft3)", "MMcf"), ("M(m3)", "MMm3"), ("k(ft3)", "Mcf"), ("Ns/m", "N.s/m"), ("lbmole", "lbmol"), ("gmole", "gmol"),
+                  ("1000ft3/d", "Mcf/d"), ("lb/lbmole", "lb/lbmol"), ("Ns/m2", "N.s/m2"), ("kgmole", "kgmol")]
+
+
 class Loud:
     def __init__(self, ctx):
         self.ctx = ctx
@@ -264,7 +269,7 @@ def run(ctx):
     probe.install()
     probe.reach([UnitDatabase._DoOperationWithSameQuantity, UnitDatabase.CheckCategoryUnit, UnitDatabase.GetInfo, Quantity.__init__, Scalar.__lt__])
     ctx.rule = (
-        "(A) every category x foreign units (quick: case-insensitive look-alikes + a rotating selection of other quantity types; thorough: all 1548 units) "
+        "(A) every category x foreign units (quick: case-insensitive look-alikes + legacy spellings of units of other types + a rotating selection of other quantity types; thorough: all 1548 units and 12 legacy spellings) "
         "x 35 creation/conversion entry points; (B) + - and ordering on simple cross-type pairs (Scalar, Array in 4 container mixes, FixedArray, FractionScalar, both orders) "
         "and on derived pairs differing by one factor; (C) differential histories: the same history with the failing calls deleted, run on a twin database, must give "
         "identical outcomes for every valid operation; operands and registry snapshotted around every failing call. A case = (category, foreign unit) / dimension-vector pair / history"
@@ -293,6 +298,11 @@ def run(ctx):
                 for oqt, fu in lower.get(u.lower(), ()):
                     if oqt != qt:
                         foreign.append((oqt, fu, u))
+            # legacy spellings of units of another type: the rewrite must not smuggle them past the type check
+            for leg, cur in LEGACY_FOREIGN:
+                lqt = db.GetQuantityType(cur)
+                if lqt is not None and lqt != qt and (ctx.tier != "quick" or (ci + len(leg)) % 3 == 0):
+                    foreign.append((lqt, leg, None))
             if ctx.tier == "quick":
                 k = 24
                 sel = [qts[(ci * 7 + j * (len(qts) // k + 1)) % len(qts)] for j in range(k)]
